@@ -3,6 +3,7 @@ package coqprint
 import (
 	"encoding/json"
 	"fmt"
+	"io"
 	"sort"
 	"strings"
 
@@ -93,8 +94,8 @@ func ParseOrdered(data []byte) (interface{}, bool) {
 	if dec.More() {
 		return nil, false
 	}
-	// trailing garbage?
-	if _, err := dec.Token(); err == nil {
+	// anything but the end of the input after the value (also a stray closing bracket) makes the body invalid
+	if _, err := dec.Token(); err != io.EOF {
 		return nil, false
 	}
 	return v, true
